@@ -80,3 +80,43 @@ Proof.
   - destruct (H3 Hbig) as (Hub & _). lia.
 Qed.
 End Params.
+
+(* ---------- the table never refuses an insertion for tables of any realistic size ----------
+   With C01_arith ("a step is undefined only if the table refuses to grow") this closes the arithmetic-safety
+   statement: for entries of up to 255 bytes of inline size and tables below 2^48 entries, every step is defined. *)
+Section Total.
+Variable E : N.
+Hypothesis E_small : 0 < E < 256.
+
+Lemma c2b_small n : 0 < n -> n < 2 ^ 50 -> exists b, c2b n = Some b /\ b < 2 ^ 52 /\ 4 <= b.
+Proof.
+  intros Hn Hlt. unfold c2b. destruct (N.ltb_spec n 8).
+  - eexists. split; [reflexivity|]. destruct (n <? 4); split; try lia; change (2 ^ 52) with 4503599627370496; lia.
+  - unfold mul64. assert (HW : n * 8 < W) by (unfold W; change (2 ^ 50) with 1125899906842624 in Hlt; lia).
+    destruct (N.ltb_spec (n * 8) W); [|lia]. cbn [bind]. eexists. split; [reflexivity|].
+    assert (H8 : 1 < n * 8 / 7) by lia. destruct (npow2_bounds _ H8) as [Hlo Hhi].
+    change (2 ^ 50) with 1125899906842624 in Hlt. change (2 ^ 52) with 4503599627370496. split; lia.
+Qed.
+
+Lemma layout_ok_small b : b < 2 ^ 52 -> layout_ok E b = true.
+Proof.
+  intros Hb. change (2 ^ 52) with 4503599627370496 in Hb. unfold layout_ok, mul64, add64, W.
+  assert (HP : E * b <= 255 * b) by (apply N.mul_le_mono_r; lia). set (P := E * b) in *.
+  destruct (N.ltb_spec P 18446744073709551616); [|lia]. destruct (N.ltb_spec (P + 15) 18446744073709551616); [|lia].
+  destruct (N.ltb_spec ((P + 15) / 16 * 16 + (b + 16)) 18446744073709551616); [apply N.leb_le|]; lia.
+Qed.
+
+Theorem t_insert_total t items o : items <= capacity t -> capacity t < 2 ^ 48 -> t_insert E t items o <> None.
+Proof.
+  intros Hle Hsmall. unfold t_insert. destruct (o_reuse o && (0 <? tombs t)); [discriminate|].
+  unfold growth_left. destruct (N.ltb_spec 0 (capacity t - items)); [discriminate|].
+  change (2 ^ 48) with 281474976710656 in Hsmall.
+  unfold mul64. destruct (N.ltb_spec (capacity t * 2) W); [|unfold W in *; lia]. cbn [bind].
+  set (n := N.max (capacity t * 2) 1). assert (Hn : 0 < n /\ n < 2 ^ 50) by (unfold n; change (2 ^ 50) with 1125899906842624; lia).
+  destruct (c2b_small n (proj1 Hn) (proj2 Hn)) as (b & Hc & Hb & Hb4).
+  unfold t_alloc. destruct (N.eqb_spec n 0); [lia|]. rewrite Hc, (layout_ok_small b Hb). cbn [negb].
+  destruct (c2b_spec n b (proj1 Hn) Hc) as (Hge & _ & _).
+  unfold capacity at 1, fullcap. cbn [nb tombs]. destruct (N.eqb_spec b 1); [lia|].
+  destruct (N.ltb_spec 0 (b2c (b - 1) - 0 - items)); [discriminate|]. unfold n in Hge. lia.
+Qed.
+End Total.
